@@ -5,7 +5,7 @@ S=/tmp/gowp-mut
 rm -rf $S; mkdir -p $S
 cd /repo && git archive HEAD | tar -x -C $S
 cp -r /repo/.git $S/.git 2>/dev/null
-SEEDS="$@"; [ -z "$SEEDS" ] && SEEDS=$(ls /verif/seeded)
+SEEDS="$@"; [ -z "$SEEDS" ] && SEEDS=$(ls /verif/seeded | grep "^C[0-9]")
 for d in $SEEDS; do
   D=/verif/seeded/$d
   P=$D/patch_head.diff; [ -f $P ] || P=$D/patch.diff
